@@ -56,6 +56,16 @@ type QSpec struct {
 	Limits    []LimitSpec       `json:"limits,omitempty"`
 	Template  *TemplateSpec     `json:"template,omitempty"`
 	Children  []*QSpec          `json:"children,omitempty"`
+	// Upper: the configuration document spells the name with an upper case first letter; queue paths are
+	// case insensitive (stored lower case), so the model keeps using the lower case name
+	Upper bool `json:"upper,omitempty"`
+}
+
+func (q *QSpec) docName() string {
+	if q.Upper && q.Name != "" {
+		return strings.ToUpper(q.Name[:1]) + q.Name[1:]
+	}
+	return q.Name
 }
 
 type RuleSpec struct {
@@ -157,7 +167,7 @@ func (c *ConfSpec) Leaves() []string {
 
 func (q *QSpec) toConf() configs.QueueConfig {
 	qc := configs.QueueConfig{
-		Name:            q.Name,
+		Name:            q.docName(),
 		Parent:          q.Parent || len(q.Children) > 0,
 		MaxApplications: q.MaxApps,
 		Properties:      q.Props,
@@ -465,7 +475,7 @@ func genConf(r *Rng, pf Profile, total Res) *ConfSpec {
 			nch = r.Range(2, 3)
 		}
 		for i := 0; i < nch; i++ {
-			q := &QSpec{Name: names[i]}
+			q := &QSpec{Name: names[i], Upper: r.Bool(0.12)}
 			leaf := depth+1 >= pf.Depth || r.Bool(0.5)
 			if r.Bool(pf.TightMax) {
 				q.Max = genRes(r, 2, 14, 0.7)
